@@ -1,5 +1,5 @@
 import EudoxiaModel.Model.Sched.Priority
-import EudoxiaModel.Props.C12
+import EudoxiaModel.Proofs.BestPool
 import EudoxiaModel.Proofs.Built
 /-! Helper lemmas for the priority / priority-pool rounds (budget bookkeeping of the per-round pool snapshots; every assignment comes out of the checked
     constructor).  The property theorems built on them are in `Props/C08.lean`; the names stay in `Eudoxia.C08`. -/
@@ -285,5 +285,38 @@ theorem ppQueue_built (q pool : Nat) : ∀ (jobs : List Job) (w : World) (sn : L
           obtain ⟨_, hm⟩ := mkA_ok hmk
           obtain ⟨new, e, b⟩ := ih _ _ _ _ _ _ _ _ h
           exact ⟨a1 :: new, by simp [e], .cons hm b⟩
+
+theorem findCtr_of_mem_nodup : ∀ (l : List Ctr) (c : Ctr), c ∈ l → (l.map (·.cid)).Nodup → findCtr l c.cid = some c := by
+  intro l
+  induction l with
+  | nil => intro c h; simp at h
+  | cons x xs ih =>
+    intro c hc hnd
+    simp only [List.map_cons, List.nodup_cons] at hnd
+    unfold findCtr
+    rw [List.find?_cons]
+    rcases List.mem_cons.mp hc with rfl | hc
+    · simp
+    · have : (x.cid == c.cid) = false := by
+        simp only [beq_eq_false_iff_ne, ne_eq]
+        intro e
+        exact hnd.1 (e ▸ List.mem_map.mpr ⟨c, hc, rfl⟩)
+      rw [this]
+      exact ih c hc hnd.2
+
+/-- the executor's `verify_valid_suspend` accepts a list of requests each of which names a suspendable active container (container numbers being
+distinct within the pool — part of the pool invariant `PoolInv`, proved for every reachable world) -/
+theorem verifySuspends_ok (p : Pool) (hnd : (p.active.map (·.cid)).Nodup) : ∀ (l : List Nat),
+    (∀ cid ∈ l, ∃ c ∈ p.active, c.cid = cid ∧ c.canSuspend = true) → verifySuspends p l = .ok () := by
+  intro l
+  induction l with
+  | nil => intro _; rfl
+  | cons x xs ih =>
+    intro h
+    obtain ⟨c, hc, e, hs⟩ := h x (by simp)
+    unfold verifySuspends
+    rw [← e, findCtr_of_mem_nodup _ c hc hnd]
+    simp only [hs, ↓reduceIte]
+    exact ih (fun cid hcid => h cid (List.mem_cons_of_mem _ hcid))
 
 end Eudoxia.C08
